@@ -20,7 +20,7 @@ PLANS = {
         'schedule_measure': 'distinct (abstract DFA, iteration order of its Q/Sigma/F sets in the executing process) pairs',
         'assumptions': COMMON_ASSUMPTIONS,
         'expected_probes': ['has_unreachable', 'F_empty', 'F_full', 'one_state', 'sigma_empty', 'logging_on', 'nontrivial', 'inplace_edit_between_calls', 'earlier_calls_on_a_twin', 'at_least_12_classes'],
-        'technique': 'deterministic simulation: seeded search over set-iteration schedules (PYTHONHASHSEED x renaming x insertion order) and the logging knob; reference-model oracle; minimised replay files',
+        'technique': 'deterministic simulation: seeded search over set-iteration schedules (PYTHONHASHSEED x renaming x insertion order) and the logging knob; reference-model oracle; minimised replay files; also object-lifetime histories inside each pristine interpreter (in-place edits of the live object between calls, earlier calls on twin objects) and the logging knob',
         'level_text': 'seeded sampling of DFAs x schedules; every result of the three minimisers is checked against an independent reference (validity, exact language equality, Moore refinement leaves every state alone, Nerode class-count bounds, argument snapshot); evidence, not proof',
         'design_ref': 'DESIGN.md 5.2',
         'level_note': 'trusted: /verif/ref/fa.py (cross-checked by selftest); CPython set ordering is the only scheduler; tick clock as hang guard (a call exceeding 2M ticks counts as not returning)',
@@ -37,7 +37,7 @@ PLANS = {
         'assumptions': COMMON_ASSUMPTIONS + ['a call that does not return within 300000 ticks (correct code needs < 3000 on these sizes) is counted as non-terminating'],
         'expected_probes': ['pair_isomorphic', 'pair_equivalent_not_isomorphic', 'pair_inequivalent',
                             'same_language_different_reachable_count', 'has_unreachable', 'identical_objects', 'nontrivial', 'inplace_edit_between_calls', 'earlier_calls_on_a_twin'],
-        'technique': 'deterministic simulation: seeded search over pair-exploration schedules (PYTHONHASHSEED x renaming) under a simulated tick clock (bounded liveness); canonical-form oracle; minimised replay files',
+        'technique': 'deterministic simulation: seeded search over pair-exploration schedules (PYTHONHASHSEED x renaming) under a simulated tick clock (bounded liveness); canonical-form oracle; minimised replay files; also object-lifetime histories inside each pristine interpreter (in-place edits of the live object between calls, earlier calls on twin objects) and the logging knob',
         'level_text': 'seeded sampling of DFA pairs of five classes x schedules; both functions and both argument orders must answer exactly canon(D1)==canon(D2) and must return within the tick budget; evidence, not proof',
         'design_ref': 'DESIGN.md 5.9',
         'level_note': 'trusted: /verif/ref/iso.py (BFS canonical form, cross-checked against brute-force bijection search); termination is judged by a deterministic tick budget, never by wall clock',
@@ -54,7 +54,7 @@ PLANS = {
         'assumptions': COMMON_ASSUMPTIONS + ['a call that does not return within 400k (PDA: 1.2M) ticks is counted as not returning in finite time',
                                              'PDA narrowing: a witness is demanded when the library\'s own pda_accepts_word says True under the current limit, or when every exact epsilon-closure fits under the limit (then acceptance is complete by C09)'],
         'expected_probes': ['kind_dfa', 'kind_nfa', 'kind_pda', 'kind_cfg', 'epsilon_cycle_present', 'run_with_epsilon_steps', 'nontrivial', 'limit_above_default', 'inplace_edit_between_calls'],
-        'technique': 'deterministic simulation: seeded search over set-iteration schedules (PYTHONHASHSEED x renaming x insertion order) under a simulated tick clock (bounded liveness); independent witness re-checker; minimised replay files',
+        'technique': 'deterministic simulation: seeded search over set-iteration schedules (PYTHONHASHSEED x renaming x insertion order) under a simulated tick clock (bounded liveness); independent witness re-checker; minimised replay files; also object-lifetime histories inside each pristine interpreter (in-place edits of the live object between calls, earlier calls on twin objects) and the logging knob',
         'level_text': 'seeded sampling of automata/grammars x words x schedules; every returned run/derivation is re-checked step by step against the snapshot by an independent checker, acceptance comes from the reference, and every call must return within the tick budget; evidence, not proof',
         'design_ref': 'DESIGN.md 5.6',
         'level_note': 'trusted: witness checkers in props/c15.py and ref/cfg.py, reference acceptance (ref/fa.py, ref/pda.py); termination judged by deterministic tick budget',
@@ -71,7 +71,7 @@ PLANS = {
         'assumptions': COMMON_ASSUMPTIONS + ['inputs are bounded (<= 6 DFA states) because extracted expressions grow exponentially; larger inputs are excluded for cost only'],
         'expected_probes': ['kind_regexp', 'kind_dfa', 'nontrivial', 'state_named_start_or_accept', 'alphabet_contains_0_or_1', 'three_symbols',
                             'earlier_conversions_in_same_interpreter', 'inplace_edit_between_calls'],
-        'technique': 'deterministic simulation: seeded search over state-elimination schedules (PYTHONHASHSEED x renaming x insertion order); exact language-equality oracle via reference Thompson/subset/minimal-DFA; minimised replay files',
+        'technique': 'deterministic simulation: seeded search over state-elimination schedules (PYTHONHASHSEED x renaming x insertion order); exact language-equality oracle via reference Thompson/subset/minimal-DFA; minimised replay files; also object-lifetime histories inside each pristine interpreter (in-place edits of the live object between calls, earlier calls on twin objects) and the logging knob',
         'level_text': 'seeded sampling of regular expressions and DFAs x elimination orders; exact (all word lengths) language comparison against independent reference constructions; evidence, not proof',
         'design_ref': 'DESIGN.md 5.3',
         'level_note': 'trusted: /verif/ref/regexp.py (Thompson; cross-checked against Brzozowski derivatives) and /verif/ref/fa.py',
@@ -92,7 +92,7 @@ PLANS = {
         'expected_probes': ['at_least_26_variables', 'multi_letter_variable', 'nullable_start', 'hint_clashes_with_variable', 'nontrivial',
                             'apply_phase_0', 'apply_phase_1', 'apply_phase_2', 'apply_phase_3', 'apply_phase_4', 'apply_phase_5',
                             'earlier_conversion_of_twin', 'inplace_edit_between_calls'],
-        'technique': 'deterministic simulation: seeded search over variable-iteration schedules (PYTHONHASHSEED x variable renaming x insertion order); bounded reference-language oracle plus phase postconditions and argument snapshots; minimised replay files',
+        'technique': 'deterministic simulation: seeded search over variable-iteration schedules (PYTHONHASHSEED x variable renaming x insertion order); bounded reference-language oracle plus phase postconditions and argument snapshots; minimised replay files; also object-lifetime histories inside each pristine interpreter (in-place edits of the live object between calls, earlier calls on twin objects) and the logging knob',
         'level_text': 'seeded sampling of grammars x schedules; every phase result is compared with an independent bounded language fixpoint, its own postcondition is re-checked by reference predicates, and the argument is snapshotted before/after (rule order included); evidence, not proof',
         'design_ref': 'DESIGN.md 5.4',
         'level_note': 'trusted: /verif/ref/cfg.py (fixpoint cross-checked against CYK on CNF grammars); bounded word length',
@@ -111,7 +111,7 @@ PLANS = {
         'expected_probes': ['closure_exceeds_limit', 'closure_exceeds_1000', 'limit_equals_closure_size', 'limit_is_closure_size_plus_one',
                             'limit_is_closure_size_minus_one', 'truncated_and_accepting', 'truncated_and_missed', 'nontrivial',
                             'limit_above_default_and_closure_between', 'inplace_edit_between_calls'],
-        'technique': 'deterministic simulation: seeded sessions over the ambient closure-limit knob x truncation schedules (PYTHONHASHSEED x renaming); exact reference acceptance (matched push/pop summaries) and exact closure sizes; minimised replay files',
+        'technique': 'deterministic simulation: seeded sessions over the ambient closure-limit knob x truncation schedules (PYTHONHASHSEED x renaming); exact reference acceptance (matched push/pop summaries) and exact closure sizes; minimised replay files; also object-lifetime histories inside each pristine interpreter (in-place edits of the live object between calls, earlier calls on twin objects) and the logging knob',
         'level_text': 'seeded sampling of PDAs x words x limit settings x schedules; soundness is checked unconditionally and completeness exactly when the reference proves every closure fits under the limit; evidence, not proof',
         'design_ref': 'DESIGN.md 5.5',
         'level_note': 'trusted: /verif/ref/pda.py (summaries cross-checked against capped configuration BFS in selftest and again inside every case that BFS can decide)',
@@ -129,7 +129,7 @@ PLANS = {
         'assumptions': COMMON_ASSUMPTIONS + ['the oracle is the library\'s own acceptance test, as the statement says; its correctness is the business of other properties',
                                              'multi-character regexp symbols and the set pass-through of generate_language are not among "the six kinds" and are not generated'],
         'expected_probes': ['kind_dfa', 'kind_nfa', 'kind_pda', 'kind_tm', 'kind_cfg', 'kind_regexp', 'n_0', 'n_1', 'n_2', 'closure_truncated', 'nontrivial', 'regexp_symbol_0_or_1'],
-        'technique': 'deterministic simulation: seeded sessions over ambient knobs (closure limit, TM step budget, n) x schedules (PYTHONHASHSEED x renaming); brute-force oracle through the library\'s own acceptance test; truncation observed at the pda_epsilon_closure seam; minimised replay files',
+        'technique': 'deterministic simulation: seeded sessions over ambient knobs (closure limit, TM step budget, n) x schedules (PYTHONHASHSEED x renaming); brute-force oracle through the library\'s own acceptance test; truncation observed at the pda_epsilon_closure seam; minimised replay files; also object-lifetime histories inside each pristine interpreter (in-place edits of the live object between calls, earlier calls on twin objects) and the logging knob',
         'level_text': 'seeded sampling of objects of all six kinds x bounds x knob settings x schedules, three sub-checks per step (nothing longer than n, nothing missing, nothing extra) plus generate_language == direct call; candidly, for five of the six kinds this is input generation riding along with the PDA/TM configuration dimension; evidence, not proof',
         'design_ref': 'DESIGN.md 5.1',
         'level_note': 'trusted: the wrapper that observes closure truncation (ref/pda.py step relation); the library\'s own acceptance tests are the oracle by definition of the property',
@@ -147,7 +147,7 @@ PLANS = {
         'assumptions': COMMON_ASSUMPTIONS + ['narrowing: both operands of one call share the same epsilon symbol'],
         'expected_probes': ['non_default_epsilon', 'private_generator', 'next_default_name_is_an_operand_state', 'nontrivial',
                             'operand_with_shared_target_sets', 'inplace_edit_between_calls'],
-        'technique': 'deterministic simulation: seeded operation histories in pristine interpreters (hidden name generators and aliasing are the state under test) x schedules; reference union/concat/star oracle with exact language equality and snapshots after every step; ddmin over the step list; minimised replay files',
+        'technique': 'deterministic simulation: seeded operation histories in pristine interpreters (hidden name generators and aliasing are the state under test) x schedules; reference union/concat/star oracle with exact language equality and snapshots after every step; ddmin over the step list; minimised replay files; base NFAs with aliased target sets, multi-character epsilon symbols and in-place edits between constructions',
         'level_text': 'seeded sampling of call histories over a pool of NFAs; every construction result is compared exactly (all word lengths) with the reference construction on pre-call snapshots, and every pool object is re-snapshotted after every step; evidence, not proof',
         'design_ref': 'DESIGN.md 5.7',
         'level_note': 'trusted: /verif/ref/fa.py incl. ref_union/ref_concat/ref_star (cross-checked against bounded enumeration in selftest)',
@@ -168,7 +168,7 @@ PLANS = {
                                              'CFG and PDA results are compared on words of bounded length (<= 4 resp. <= 3)',
                                              'a consistent exception (e.g. dfa_make_total: RecursionError) is agreement, not a violation of this property'],
         'expected_probes': ['nontrivial_steps', 'solo_reexecutions', 'pda_call_with_truncated_closure', 'inplace_edit_between_calls'],
-        'technique': 'deterministic simulation of replicas: one seeded operation history executed by several fresh interpreters (different PYTHONHASHSEED, logging on/off) and re-executed step-wise in pristine forks; differential oracle on language-level outcome digests plus snapshots after every step; ddmin over the step list inside the same two interpreters; replay files confirmed in fresh interpreters',
+        'technique': 'deterministic simulation of replicas: one seeded operation history executed by several fresh interpreters (different PYTHONHASHSEED, logging on/off) and re-executed step-wise in pristine forks; differential oracle on language-level outcome digests plus snapshots after every step; ddmin over the step list inside the same two interpreters; replay files confirmed in fresh interpreters; twins, in-place edits and undecodable alphabets in the sessions',
         'level_text': 'seeded sampling of call histories x hash seeds x logging; argument integrity is checked after every step in every replica, and replica / solo / logging agreement is checked on every step outcome; evidence, not proof',
         'design_ref': 'DESIGN.md 5.8',
         'level_note': 'trusted: outcome digests (reference canonical forms from /verif/ref), snapshots; only agreement is judged here, not correctness of the agreed value (that is the business of the other properties)',
